@@ -226,7 +226,9 @@ def meas_common(draw):
     c = {"x": draw(state()), "W": draw(cov_factor()), "true": draw(attitude()),
          "near": draw(st.booleans()),  # true attitude = estimate rotated by a small error (realistic) or unrelated
          "err": [draw(gens.fl(-0.05, 0.05)) for _ in range(3)],
-         "mclass": draw(st.sampled_from(["consistent", "noisy", "gross_scale", "zero", "gross_dir"])),
+         "mclass": draw(st.sampled_from(["consistent", "noisy", "gross_scale", "zero", "gross_dir", "edge"])),
+         # 'edge' (accelerometer only): magnitude g + s (1 + d), i.e. just inside / just outside the +-1 gate
+         "edge_s": draw(st.sampled_from([-1, 1])), "edge_d": draw(st.sampled_from([-0.05, -5e-3, -1e-4, -1e-7, 1e-7, 1e-4, 5e-3, 0.05])),
          "scale": draw(st.sampled_from([0.0, 0.2, 0.5, 0.85, 1.15, 2.0, 5.0])),
          "noise": [draw(gens.fl(-1.0, 1.0)) for _ in range(3)], "decl": draw(gens.fl(-0.5, 0.5))}
     return c
@@ -259,6 +261,8 @@ def accel_meas(case):
         y = np.zeros(3)
     elif m == "gross_dir":
         y = case["g"] * np.array(case["noise"]) * 3
+    elif m == "edge":
+        y = y / case["g"] * (case["g"] + case.get("edge_s", 1) * (1.0 + case.get("edge_d", 1e-4)))
     return y
 
 
@@ -315,7 +319,10 @@ def mag_case(draw):
     c.update({"incl": draw(gens.fl(-1.4, 1.4)), "mag_str": 10.0 ** draw(gens.fl(-2.0, 0.5)),
               "std_mag": 10.0 ** draw(gens.fl(-3.5, -1.0)), "beta": draw(gens.fl(1.0, 20.0)),
               "vertical": draw(st.integers(0, 3)) == 0, "tilt_big": draw(st.integers(0, 3)) == 0,
-              "vert_eps": 10.0 ** draw(gens.fl(-5.0, -1.0))})
+              "vert_eps": 10.0 ** draw(gens.fl(-5.0, -1.0)),
+              # roll/pitch gate band: norm(W00, W11) = 0.1 (1 - band_u) split by band_phi, with a cross term W10
+              "tilt_band": draw(st.integers(0, 3)) == 0, "band_u": draw(st.sampled_from([0.0, 1e-6, 0.01, 0.05, 0.15, 0.3, -1e-6, -0.05])),
+              "band_phi": draw(gens.fl(0.05, 1.5)), "w10": draw(gens.fl(-0.1, 0.1))})
     return c
 
 
@@ -334,6 +341,12 @@ def mag_state(case):
         W = W.copy()
         W[0, 0] = 0.09
         W[1, 1] = 0.09
+    elif case.get("tilt_band"):
+        W = W.copy()
+        n = 0.1 * (1.0 - case["band_u"])
+        W[0, 0] = n * math.cos(case["band_phi"])
+        W[1, 1] = n * math.sin(case["band_phi"])
+        W[1, 0] = case["w10"]
     return x, W
 
 
@@ -410,7 +423,7 @@ def mag_classify(case):
     y = mag_meas(case)
     out = call("correct_mag", x, W, y, case["decl"], case["std_mag"], case["beta"])
     code = float(out[5].reshape(-1)[0])
-    return ["meas:" + case["mclass"], "code:%g" % code]
+    return ["meas:" + case["mclass"], "code:%g" % code] + (["tilt:band"] if case.get("tilt_band") and not case["tilt_big"] else [])
 
 
 def accel_classify2(case):
